@@ -291,11 +291,11 @@ class Walk:
             p = self.place(target)
             el = self.elem_of(target)
             if p is not None:
-                self.events.append(("child", cs.Accessors._place_outcome(p), tuple(self.stack), ln))
+                self.events.append(("child", cs.Accessors._place_outcome(p), tuple(self.stack), ln, self.scope))
             elif el is not None:
-                self.events.append(("list_elem", el, tuple(self.stack), ln))
+                self.events.append(("list_elem", el, tuple(self.stack), ln, self.scope))
             else:
-                self.events.append(("synthetic", None, tuple(self.stack), ln))
+                self.events.append(("synthetic", None, tuple(self.stack), ln, self.scope))
         elif SUBEXPR in names:
             self.subexpr(args[0], ln)
         elif any(n.startswith("compiler::Compiler::") and n != "compiler::Compiler::encode_if_then" for n in names):
@@ -303,7 +303,7 @@ class Walk:
             self.events.append(("emit", [n for n in names if n.startswith("compiler::Compiler::")][0], tuple(self.stack), ln))
         if "compiler::Compiler::encode_if_then" in names:
             # encode_if_then itself emits the conditional jump before it runs the callback
-            self.events.append(("emit", "compiler::Compiler::encode_if_then", tuple(self.stack), ln))
+            self.events.append(("emit", "compiler::Compiler::encode_if_then", tuple(self.stack), ln, self.scope))
         # closures run with the caller's bookkeeping state (encode_if_then calls `then(self)` once)
         for c in closure_args:
             if "compiler::Compiler::encode_if_then" in names:
